@@ -461,7 +461,9 @@ impl State {
                                             // there is no remaining case
                                             // in the disjunct, we need to
                                             // unwind to the previous
-                                            // disjunct if any.
+                                            // disjunct if any.  The index
+                                            // belonged to this disjunct.
+                                            *next_idx = 0;
                                             if self.unwind() {
                                                 //println!(" get_next_check({}): failed all cases
                                                 // of disjunct, unwinding ", cnt);
